@@ -853,7 +853,13 @@ pub fn process_request(input: &str, dbs: &Arc<Databases>, client: &mut Client) -
         | Request::ReplicateIncrement { .. }
         | Request::CreateUser { .. }
         | Request::SetPermissions { .. }
-        | Request::Resolve { .. } => Some(lock_replication_order(&dbs)),
+        | Request::Resolve { .. }
+        // ... and so do a new database and a snapshot request: a write another session makes to a
+        // database in the moment between its creation and the hand over of its create-db would
+        // reach the other nodes first and be refused there (and two databases created at once
+        // were given the same id)
+        | Request::CreateDb { .. }
+        | Request::Snapshot { .. } => Some(lock_replication_order(&dbs)),
         _ => None,
     };
     let result = process_request_obj(&request, &dbs, client);
